@@ -425,6 +425,6 @@ def run(tier, seed):
 MANIFEST = {
     "engine": "E",
     "technique": "exhaustive small-scope enumeration: every capability kind over field alphabets, and the complete one-edit (thorough: two-edit) neighbourhood of valid strings, against an independent strict grammar",
-    "text": "Every capability kind is built from every combination of small field alphabets and round-tripped through the real serialiser and parsers; every string one edit (thorough: two edits) away from a valid capability, a catalogue of field/prefix/extension malformations, and all short strings after every kind prefix are parsed by the real uri.from_string and compared with a strict reference grammar written from docs/specifications/uri.rst (canonical base32, canonical decimals, nothing after the last field).",
+    "text": "Every capability kind is built from every combination of small field alphabets and round-tripped through the real serialiser and parsers; every string one edit (thorough: two edits) away from a valid capability, a catalogue of field/prefix/extension malformations, and all short strings after every kind prefix are parsed by the real uri.from_string and compared with a strict reference grammar written from docs/specifications/uri.rst (canonical base32, canonical decimals, nothing after the last field). Every field of every kind also takes each of the 32 possible first base32 characters.",
     "note": "Small scope only: says nothing about strings more than two edits away from a valid capability other than the short-string families. Trusted: the reference parser in vt/lib_caps.py (its base32 is cross-checked against the stdlib and the uri.rst examples).",
 }
